@@ -138,6 +138,16 @@ func Wide() []Scenario {
 	}
 }
 
+// KnownMemoryAhead prefixes the message of a violation that belongs to the recorded finding
+// class:memory-head-ahead-of-config-after-failed-flush (see known_findings.txt and DESIGN.md section 11).
+const KnownMemoryAhead = "class:memory-head-ahead-of-config-after-failed-flush|"
+
+func lookupPath(l Lookup) string {
+	ep, _ := module.EscapePath(l.Path)
+	ev, _ := module.EscapeVersion(strings.TrimSuffix(l.Vers, "/go.mod"))
+	return "/lookup/" + ep + "@" + ev
+}
+
 // ForkScenarios are the C13 schedule scenarios: two clients share a compare-and-swap config
 // while their servers present forks of the same prefix, or the same log at different sizes.
 func ForkScenarios() []Scenario {
@@ -145,6 +155,8 @@ func ForkScenarios() []Scenario {
 		{Name: "fork-two-clients", Height: 2, Preload: pre(10, 11), Stored: true, Clients: 2, Fork: true, Threads: [][]Lookup{{L(0, 0, false)}, {L(1, 1, false)}}},
 		{Name: "fork-two-clients-empty-config", Height: 1, Preload: pre(10), Clients: 2, Fork: true, Threads: [][]Lookup{{L(0, 0, false)}, {L(1, 0, false)}}},
 		{Name: "fork-one-client-two-threads", Height: 2, Preload: pre(10, 11, 12, 13), Stored: true, Clients: 1, Fork: true, ByThread: true, Threads: [][]Lookup{{L(0, 0, false)}, {L(0, 1, false), L(0, 10, false)}}},
+		{Name: "fork-two-clients-second-lookup-same-head", Height: 2, Preload: pre(10, 11), Stored: true, Clients: 2, Fork: true, Threads: [][]Lookup{{L(0, 0, false)}, {L(1, 1, false), L(1, 10, false)}}},
+		{Name: "fork-two-clients-second-lookup-fork-only-record", Height: 1, Preload: pre(10), Stored: true, Clients: 2, Fork: true, Threads: [][]Lookup{{L(0, 0, false)}, {L(1, 1, false), {1, "fork.example/only", "v1.0.0"}}}},
 		{Name: "same-log-different-sizes", Height: 2, Preload: pre(10, 11, 12), Stored: true, Clients: 2, Threads: [][]Lookup{{L(0, 0, false), L(0, 1, false)}, {L(1, 3, false)}}},
 	}
 }
@@ -607,9 +619,8 @@ func Check(sc Scenario, e *Env, results []Res) (string, string) {
 				if r.Err != nil || r.Lookup.Client != c || skipped(r.Lookup.Path) {
 					continue
 				}
-				esc, _ := module.EscapePath(r.Lookup.Path)
 				for _, sh := range e.Served {
-					if sh.Client == c && sh.Path == "/lookup/"+esc+"@"+strings.TrimSuffix(r.Lookup.Vers, "/go.mod") {
+					if sh.Client == c && sh.Path == lookupPath(r.Lookup) {
 						ts = append(ts, sh.Tree)
 						what = append(what, fmt.Sprintf("lookup %s -> size %d", r.Lookup.Path, sh.Tree.N))
 					}
@@ -638,6 +649,83 @@ func Check(sc Scenario, e *Env, results []Res) (string, string) {
 			if !one {
 				return fmt.Sprintf("client %d accepted signed trees that do not lie on one log: %v", c, what), ""
 			}
+		}
+	}
+	if sc.Fork {
+		// one timeline for everybody who shares the configuration: the heads carried by the responses of all
+		// successful lookups and all stored heads, of all clients, must be true heads of one and the same log
+		type acc struct {
+			client int
+			t      tlog.Tree
+			what   string
+			lookup bool
+		}
+		var all []acc
+		for _, r := range results {
+			if r.Err != nil || skipped(r.Lookup.Path) {
+				continue
+			}
+			for _, sh := range e.Served {
+				if sh.Client == r.Lookup.Client && sh.Path == lookupPath(r.Lookup) {
+					all = append(all, acc{r.Lookup.Client, sh.Tree, fmt.Sprintf("client %d lookup %s@%s accepted with head size %d %s", r.Lookup.Client, r.Lookup.Path, r.Lookup.Vers, sh.Tree.N, sh.Tree.Hash.String()[:8]), true})
+				}
+			}
+		}
+		for _, w := range e.Writes {
+			if !w.Conflict {
+				if nt, err := open(w.New); err == nil {
+					all = append(all, acc{w.Client, nt, fmt.Sprintf("client %d stored head size %d %s", w.Client, nt.N, nt.Hash.String()[:8]), false})
+				}
+			}
+		}
+		if final.N > 0 {
+			all = append(all, acc{-1, final, fmt.Sprintf("final stored head size %d %s", final.N, final.Hash.String()[:8]), false})
+		}
+		oneLog := func(skip func(a acc) bool) bool {
+			for i := range e.tservers {
+				ok := true
+				for _, a := range all {
+					if skip != nil && skip(a) {
+						continue
+					}
+					if h, err := e.treeHash(i, a.t.N); err != nil || h != a.t.Hash {
+						ok = false
+					}
+				}
+				if ok {
+					return true
+				}
+			}
+			return false
+		}
+		if !oneLog(nil) {
+			var what []string
+			for _, a := range all {
+				what = append(what, a.what)
+			}
+			// Known class: the accepted head is one that the same client installed in memory during an
+			// earlier lookup whose reconciliation with the shared configuration then failed (that lookup
+			// returned an error); a later response carrying exactly that head is answered from memory.
+			tainted := func(a acc) bool {
+				if !a.lookup {
+					return false
+				}
+				for _, r := range results {
+					if r.Err == nil || r.Lookup.Client != a.client {
+						continue
+					}
+					for _, sh := range e.Served {
+						if sh.Client == a.client && sh.Path == lookupPath(r.Lookup) && sh.Tree == a.t {
+							return true
+						}
+					}
+				}
+				return false
+			}
+			if oneLog(tainted) {
+				return KnownMemoryAhead + fmt.Sprintf("accepted signed trees do not lie on one log: %v", what), ""
+			}
+			return fmt.Sprintf("clients sharing one configuration accepted signed trees that do not lie on one log: %v", what), ""
 		}
 	}
 	if nsec > 0 && len(e.Security) == 0 {
